@@ -687,14 +687,14 @@ Definition dfinal (b : behaviour) (ops : list op) (s : state) : state := fst (dr
       (the index IS the position), as "legal? then effect" - no storage, no order of backend calls. *)
 
 Record sstate := mkS {
-  s_dims : list dimdesc;
-  s_label : option string;
-  s_unit : option string;
-  s_data : list V;
-  s_ty : dtype;
-  s_rank : nat;
-  s_frames : list frame;
-  s_ro : bool }.
+  q_dims : list dimdesc;
+  q_label : option string;
+  q_unit : option string;
+  q_data : list V;
+  q_ty : dtype;
+  q_rank : nat;
+  q_frames : list frame;
+  q_ro : bool }.
 
 Inductive sres := SOk (a : ans) | SReject | SAny.     (* demanded answer / must be refused / unconstrained *)
 
@@ -702,10 +702,10 @@ Definition sinit (t : dtype) (rank : nat) (len : nat) (fs : list frame) : sstate
   mkS [] None None (repeat (NDArr.zero_of t) len) t rank fs false.
 
 Definition s_with_dims (s : sstate) (l : list dimdesc) : sstate :=
-  mkS l (s_label s) (s_unit s) (s_data s) (s_ty s) (s_rank s) (s_frames s) (s_ro s).
+  mkS l (q_label s) (q_unit s) (q_data s) (q_ty s) (q_rank s) (q_frames s) (q_ro s).
 
-Definition s_count (s : sstate) : Z := zlen (s_dims s).
-Definition s_data_dbl (s : sstate) : list F64 := map (to_dbl (s_ty s)) (s_data s).
+Definition s_count (s : sstate) : Z := zlen (q_dims s).
+Definition q_data_dbl (s : sstate) : list F64 := map (to_dbl (q_ty s)) (q_data s).
 
 (** descriptor number i (1-based) *)
 Definition s_get (i : Z) (l : list dimdesc) : option dimdesc :=
@@ -725,14 +725,14 @@ Definition legal_interval (x : F64) : bool := fgt x fzero.
 Definition legal_unit (u : string) : bool := is_si u.
 
 Definition s_append (s : sstate) (d : dimdesc) : sstate * sres :=
-  if s_ro s then (s, SReject)
-  else (s_with_dims s (List.app (s_dims s) [d]), SOk (AIndex (s_count s + 1))).
+  if q_ro s then (s, SReject)
+  else (s_with_dims s (List.app (q_dims s) [d]), SOk (AIndex (s_count s + 1))).
 
 Definition s_fref_cols (s : sstate) (f : fref) : option (list string) :=
   match f with
   | FNone => None
   | FForeign => Some foreign_col_names
-  | FOrd n => match nth_error (s_frames s) n with Some fr => Some (col_names fr) | None => None end
+  | FOrd n => match nth_error (q_frames s) n with Some fr => Some (col_names fr) | None => None end
   end.
 Definition s_append_frame (s : sstate) (f : fref) (col : option Z) : sstate * sres :=
   match f with
@@ -742,14 +742,14 @@ Definition s_append_frame (s : sstate) (f : fref) (col : option Z) : sstate * sr
 
 (** a setter on descriptor i of kind k: [upd] gives the new descriptor or refuses *)
 Definition s_modify (s : sstate) (i : Z) (k : kind) (upd : dimdesc -> option (option dimdesc)) : sstate * sres :=
-  match s_get i (s_dims s) with
+  match s_get i (q_dims s) with
   | None => (s, SReject)
   | Some d =>
       if negb (kind_eqb (kind_of d) k) then (s, SReject) else
       match upd d with
       | None => (s, SReject)                       (* illegal value *)
       | Some None => (s, SOk ADone)                (* nothing to do (remove what is not there) *)
-      | Some (Some d') => if s_ro s then (s, SReject) else (s_with_dims s (s_set i d' (s_dims s)), SOk ADone)
+      | Some (Some d') => if q_ro s then (s, SReject) else (s_with_dims s (s_set i d' (q_dims s)), SOk ADone)
       end
   end.
 
@@ -761,34 +761,34 @@ Definition set_opt_str (v : option string) (legal : string -> bool) (cur : optio
   end.
 
 Definition s_with_label (s : sstate) (l : option string) : sstate :=
-  mkS (s_dims s) l (s_unit s) (s_data s) (s_ty s) (s_rank s) (s_frames s) (s_ro s).
+  mkS (q_dims s) l (q_unit s) (q_data s) (q_ty s) (q_rank s) (q_frames s) (q_ro s).
 Definition s_with_unit (s : sstate) (u : option string) : sstate :=
-  mkS (s_dims s) (s_label s) u (s_data s) (s_ty s) (s_rank s) (s_frames s) (s_ro s).
+  mkS (q_dims s) (q_label s) u (q_data s) (q_ty s) (q_rank s) (q_frames s) (q_ro s).
 Definition s_with_data (s : sstate) (d : list V) : sstate :=
-  mkS (s_dims s) (s_label s) (s_unit s) d (s_ty s) (s_rank s) (s_frames s) (s_ro s).
+  mkS (q_dims s) (q_label s) (q_unit s) d (q_ty s) (q_rank s) (q_frames s) (q_ro s).
 
 (** a write to the ARRAY (its label, unit or data), possibly through the alias *)
 Definition s_arr_write (s : sstate) (legal : bool) (noop : bool) (s' : sstate) : sstate * sres :=
   if negb legal then (s, SReject) else
   if noop then (s, SOk ADone) else
-  if s_ro s then (s, SReject) else (s', SOk ADone).
+  if q_ro s then (s, SReject) else (s', SOk ADone).
 
 Definition s_is_alias (s : sstate) (i : Z) : bool :=
-  match s_get i (s_dims s) with Some DAlias => true | _ => false end.
+  match s_get i (q_dims s) with Some DAlias => true | _ => false end.
 
 Definition s_observe (s : sstate) : obs :=
   let n := s_count s in
   mkObs n
-    (map (fun p => (fst p, Some (fst p, dobs_of (s_label s) (s_unit s) (s_data_dbl s) (s_frames s) (snd p))))
-         (combine (zrange n) (s_dims s)))
-    false false (s_label s) (s_unit s)
-    (if (Nat.eqb (s_rank s) 1) && is_numeric (s_ty s) then Some (s_data_dbl s) else None).
+    (map (fun p => (fst p, Some (fst p, dobs_of (q_label s) (q_unit s) (q_data_dbl s) (q_frames s) (snd p))))
+         (combine (zrange n) (q_dims s)))
+    false false (q_label s) (q_unit s)
+    (if (Nat.eqb (q_rank s) 1) && is_numeric (q_ty s) then Some (q_data_dbl s) else None).
 
 Definition s_ticks_of (s : sstate) (d : dimdesc) : list F64 :=
-  match d with DRange t _ _ => t | DAlias => s_data_dbl s | _ => [] end.
+  match d with DRange t _ _ => t | DAlias => q_data_dbl s | _ => [] end.
 
 Definition s_read (s : sstate) (i : Z) (k : kind) (f : dimdesc -> res ans) : sstate * sres :=
-  match s_get i (s_dims s) with
+  match s_get i (q_dims s) with
   | None => (s, SReject)
   | Some d => if negb (kind_eqb (kind_of d) k) then (s, SReject) else
               match f d with Ok a => (s, SOk a) | Err _ => (s, SReject) | UB _ => (s, SAny) end
@@ -809,8 +809,8 @@ Definition sp_step (o : op) (s : sstate) : sstate * sres :=
   | CreateSampled _ x =>
       if negb (legal_interval x) then (s, SReject) else s_append s (DSampled x None None None)
   | AppendAlias | CreateAlias =>
-      if Nat.ltb 1 (s_rank s) || negb (is_numeric (s_ty s)) || negb (lempty (s_dims s))
-         || match s_unit s with Some u => negb (alias_unit_ok u) | None => false end
+      if Nat.ltb 1 (q_rank s) || negb (is_numeric (q_ty s)) || negb (lempty (q_dims s))
+         || match q_unit s with Some u => negb (alias_unit_ok u) | None => false end
       then (s, SReject) else s_append s DAlias
   | AppendFrameIdx f c =>
       match s_fref_cols s f with
@@ -825,11 +825,11 @@ Definition sp_step (o : op) (s : sstate) : sstate * sres :=
   | AppendFrame f =>
       match s_fref_cols s f with Some _ => s_append_frame s f None | None => (s, SReject) end
   | DeleteDims =>
-      if lempty (s_dims s) then (s, SOk (ABool true)) else
-      if s_ro s then (s, SReject) else (s_with_dims s [], SOk (ABool true))
+      if lempty (q_dims s) then (s, SOk (ABool true)) else
+      if q_ro s then (s, SReject) else (s_with_dims s [], SOk (ABool true))
   | Count => (s, SOk (ACount (s_count s)))
-  | GetDim i => (s, SOk (AKind (match s_get i (s_dims s) with Some d => Some (kind_of d, i) | None => None end)))
-  | Dims => (s, SOk (ADims (map (fun p => (fst p, kind_of (snd p))) (combine (zrange (s_count s)) (s_dims s)))))
+  | GetDim i => (s, SOk (AKind (match s_get i (q_dims s) with Some d => Some (kind_of d, i) | None => None end)))
+  | Dims => (s, SOk (ADims (map (fun p => (fst p, kind_of (snd p))) (combine (zrange (s_count s)) (q_dims s)))))
   | SLabel i l => s_modify s i KSampled (fun d => match d with
       | DSampled x off u cur => set_opt_str l (fun _ => true) cur (fun v => DSampled x off u v) | _ => None end)
   | SUnit i u => s_modify s i KSampled (fun d => match d with
@@ -854,10 +854,10 @@ Definition sp_step (o : op) (s : sstate) : sstate * sres :=
       | DSet ls cur => set_opt_str l (fun _ => true) cur (fun v => DSet ls v) | _ => None end)
   | RTicks i t =>
       if s_is_alias s i then
-        match from_dbls (s_ty s) t with
+        match from_dbls (q_ty s) t with
         | Ok vs => s_arr_write s (legal_ticks t) false (s_with_data s vs)
         | Err _ => (s, SReject)
-        | UB _ => if legal_ticks t && negb (s_ro s) then (s, SAny) else (s, SReject)
+        | UB _ => if legal_ticks t && negb (q_ro s) then (s, SAny) else (s, SReject)
         end
       else s_modify s i KRange (fun d => match d with
         | DRange _ u l => if legal_ticks t then Some (Some (DRange t u l)) else None | _ => None end)
@@ -865,7 +865,7 @@ Definition sp_step (o : op) (s : sstate) : sstate * sres :=
       if s_is_alias s i then
         match l with
         | Some v => s_arr_write s (negb (sempty v)) false (s_with_label s (Some v))
-        | None => s_arr_write s true (negb (opt_is_some (s_label s))) (s_with_label s None)
+        | None => s_arr_write s true (negb (opt_is_some (q_label s))) (s_with_label s None)
         end
       else s_modify s i KRange (fun d => match d with
         | DRange t u cur => set_opt_str l (fun _ => true) cur (fun v => DRange t u v) | _ => None end)
@@ -873,7 +873,7 @@ Definition sp_step (o : op) (s : sstate) : sstate * sres :=
       if s_is_alias s i then
         match u with
         | Some v => s_arr_write s (negb (sempty v) && legal_unit v) false (s_with_unit s (Some v))
-        | None => s_arr_write s true (negb (opt_is_some (s_unit s))) (s_with_unit s None)
+        | None => s_arr_write s true (negb (opt_is_some (q_unit s))) (s_with_unit s None)
         end
       else s_modify s i KRange (fun d => match d with
         | DRange t cur l => set_opt_str u legal_unit cur (fun v => DRange t v l) | _ => None end)
@@ -885,9 +885,9 @@ Definition sp_step (o : op) (s : sstate) : sstate * sres :=
   | FQuery i q col => s_read s i KFrame (fun d => match d with
       | DFrame fo ci =>
           match q with
-          | QLabel => bind (fq_label (s_frames s) fo ci col) (fun x => Ok (AStr x))
-          | QUnit => bind (fq_unit (s_frames s) fo ci col) (fun x => Ok (AStr x))
-          | QType => bind (fq_type (s_frames s) fo ci col) (fun x => Ok (AType x))
+          | QLabel => bind (fq_label (q_frames s) fo ci col) (fun x => Ok (AStr x))
+          | QUnit => bind (fq_unit (q_frames s) fo ci col) (fun x => Ok (AStr x))
+          | QType => bind (fq_type (q_frames s) fo ci col) (fun x => Ok (AType x))
           end
       | _ => Err "" end)
   | ALabel l =>
@@ -904,13 +904,13 @@ Definition sp_step (o : op) (s : sstate) : sstate * sres :=
       | None => s_arr_write s true false (s_with_unit s None)
       end
   | AData v =>
-      if negb (Nat.eqb (s_rank s) 1) || s_ro s then (s, SReject) else
-      match from_dbls (s_ty s) v with
+      if negb (Nat.eqb (q_rank s) 1) || q_ro s then (s, SReject) else
+      match from_dbls (q_ty s) v with
       | Ok vs => (s_with_data s vs, SOk ADone)
-      | Err _ => (s_with_data s (repeat (NDArr.zero_of (s_ty s)) (List.length v)), SReject)
+      | Err _ => (s_with_data s (repeat (NDArr.zero_of (q_ty s)) (List.length v)), SReject)
       | UB _ => (s, SAny)
       end
-  | Reopen r => (mkS (s_dims s) (s_label s) (s_unit s) (s_data s) (s_ty s) (s_rank s) (s_frames s) r, SOk ADone)
+  | Reopen r => (mkS (q_dims s) (q_label s) (q_unit s) (q_data s) (q_ty s) (q_rank s) (q_frames s) r, SOk ADone)
   | Observe => (s, SOk (AObs (s_observe s)))
   end.
 
